@@ -546,6 +546,77 @@ theorem applySwaps_injective (a : List Nat) (hnd : a.Nodup) (i : Nat) :
         swap_swap _ _ _ (by omega) (by omega)]
     rw [ih L L' hL hL' hrL hrL' (by omega) hA]
 
+theorem getD_eq_getElem' (l : List Nat) (p : Nat) (h : p < l.length) : l.getD p 0 = l[p] := by
+  simp [List.getD_eq_getElem?_getD, List.getElem?_eq_getElem h]
+
+theorem ext_getD (l l' : List Nat) (hl : l.length = l'.length) (h : ∀ q, q < l.length → l.getD q 0 = l'.getD q 0) : l = l' := by
+  apply List.ext_getElem hl
+  intro q h1 h2
+  rw [← getD_eq_getElem' l q h1, ← getD_eq_getElem' l' q h2]; exact h q h1
+
+theorem swap_self (a : List Nat) (i : Nat) (hi : i < a.length) : swap a i i = a := by
+  apply ext_getD _ _ (by simp)
+  intro q _
+  rw [getD_swap a i i q hi hi]
+  by_cases e : q = i
+  · subst e; simp
+  · simp [e]
+
+/-- **Fisher–Yates is surjective onto the permutations**: on a duplicate-free array `a`, every
+    rearrangement `p` of `a` that leaves the positions `≥ n` alone is produced by some in-range sequence
+    of `n` draws (used at indices `0, 1, …, n−1`).  Constructive: the last draw is the position at which
+    `p` holds `a[n−1]`; undo that swap and recurse. -/
+theorem applySwaps_surjective : ∀ (n : Nat) (a p : List Nat), a.Nodup → p.Perm a → n ≤ a.length →
+    (∀ q, n ≤ q → p.getD q 0 = a.getD q 0) →
+    ∃ js, js.length = n ∧ InRange 0 js ∧ applySwaps a 0 js = p := by
+  intro n
+  induction n with
+  | zero =>
+    intro a p _ hp _ hag
+    refine ⟨[], rfl, fun k hk => by simp at hk, ?_⟩
+    simp only [applySwaps]
+    exact (ext_getD p a hp.length_eq (fun q _ => hag q (Nat.zero_le _))).symm
+  | succ n ih =>
+    intro a p hnd hp hlen hag
+    have hpl : p.length = a.length := hp.length_eq
+    have hx : a[n] ∈ p := hp.mem_iff.mpr (List.getElem_mem _)
+    obtain ⟨j, hjl, hj⟩ := List.getElem_of_mem hx
+    have hjn : j ≤ n := by
+      by_cases h : j ≤ n
+      · exact h
+      · exfalso
+        have h1 := hag j (by omega)
+        rw [getD_eq_getElem' p j hjl, hj, ← getD_eq_getElem' a n (by omega)] at h1
+        have := nodup_getD_inj a hnd n j (by omega) (by omega) h1
+        omega
+    have hp' : (swap p n j).Perm a := (swap_perm p n j (by omega) (by omega)).trans hp
+    have hag' : ∀ q, n ≤ q → (swap p n j).getD q 0 = a.getD q 0 := by
+      intro q hq
+      rw [getD_swap p n j q (by omega) (by omega)]
+      by_cases e1 : q = n
+      · subst e1
+        have hpj : p.getD j 0 = a.getD q 0 := by
+          rw [getD_eq_getElem' p j hjl, hj, getD_eq_getElem' a q (by omega)]
+        by_cases e2 : q = j
+        · subst e2; simpa using hpj
+        · simpa [e2] using hpj
+      · have e2 : ¬ q = j := by omega
+        simp only [e1, e2, if_false]
+        exact hag q (by omega)
+    obtain ⟨L, hL, hrL, hA⟩ := ih a (swap p n j) hnd hp' (by omega) hag'
+    refine ⟨L ++ [j], by simp [hL], ?_, ?_⟩
+    · intro k hk
+      simp only [List.length_append, List.length_cons, List.length_nil] at hk
+      by_cases hk' : k < L.length
+      · have := hrL k hk'
+        simpa [List.getD_eq_getElem?_getD, List.getElem?_append_left hk'] using this
+      · have hk2 : k = n := by omega
+        subst hk2
+        simp [List.getD_eq_getElem?_getD, hL]
+        omega
+    · rw [applySwaps_append, hA, hL, Nat.zero_add]
+      exact swap_swap p n j (by omega) (by omega)
+
 
 /-! ### numbers read through `generate_random_number_const` -/
 
